@@ -93,7 +93,7 @@ Proof. intros H. cbn [msg_step]. rewrite H. reflexivity. Qed.
 Lemma msg_step_reg parent r rc :
   (msg_step parent r rc).1 = (run_from r (rec_ops parent rc)).1.
 Proof.
-  destruct rc as [ps|fam pfx es|p [u|]|p old new|]; cbn [msg_step rec_ops run_from fst]; try reflexivity.
+  destruct rc as [ps|fam pfx es|p [u| |]|p old new|]; cbn [msg_step rec_ops run_from fst]; try reflexivity.
   - cbn [step]. destruct (find_or_register peer_match r (mrt_query parent p)) as [id r']. reflexivity.
   - destruct ((old =? 6) && (new =? 1)); [|reflexivity].
     destruct (reg_find_peers r (mrt_query parent p)); reflexivity.
@@ -129,7 +129,7 @@ Proof.
 Qed.
 
 Lemma rec_ops_disc parent rc : forallb disc (rec_ops parent rc) = true.
-Proof. destruct rc as [ps|fam pfx es|p [u|]|p old new|]; reflexivity. Qed.
+Proof. destruct rc as [ps|fam pfx es|p [u| |]|p old new|]; reflexivity. Qed.
 
 Lemma forallb_flat_map {A B} (f : B -> bool) (g : A -> list B) l :
   (forall x, forallb f (g x) = true) -> forallb f (flat_map g l) = true.
@@ -598,3 +598,110 @@ Lemma hostile_example :
      UBulk [MkPay (0, 21, 3) true 3]; UBulk [MkPay (0, 21, 4) true 4];
      UBulk [MkPay (0, 1, 5) true 9]].
 Proof. vm_compute. reflexivity. Qed.
+
+(* ------------------------------------------------------------------ *)
+(* an UPDATE that cannot be taken apart (explode_announcements / explode_withdrawals fail): all or nothing *)
+
+(* nothing of it leaves the gate, nothing is looked up or registered *)
+Lemma bad_update_step parent r p : msg_step parent r (RMsg p BBad) = (r, []).
+Proof. reflexivity. Qed.
+
+(* the file goes on behind it exactly as if the record were not there *)
+Lemma bad_update_walk parent recs1 r p recs2 :
+  msgs_walk parent r (recs1 ++ RMsg p BBad :: recs2) = msgs_walk parent r (recs1 ++ recs2).
+Proof.
+  rewrite !msgs_walk_app. destruct (msgs_walk parent r recs1) as [r1 us1].
+  cbn [msgs_walk msg_step]. destruct (msgs_walk parent r1 recs2); reflexivity.
+Qed.
+
+Lemma bad_update_file parent r name rc recs1 p recs2 :
+  update_file (FGood name (rc :: recs1 ++ recs2)) = true ->
+  process_file parent r (FGood name (rc :: recs1 ++ RMsg p BBad :: recs2)) =
+  process_file parent r (FGood name (rc :: recs1 ++ recs2)).
+Proof.
+  intros Hu. change (rc :: recs1 ++ RMsg p BBad :: recs2) with ((rc :: recs1) ++ RMsg p BBad :: recs2).
+  change (rc :: recs1 ++ recs2) with ((rc :: recs1) ++ recs2).
+  destruct rc as [ps|fam pfx es|q m|q old new|]; try discriminate Hu;
+    cbn [process_file app]; rewrite !app_comm_cons, bad_update_walk; reflexivity.
+Qed.
+
+(* ... and so do the queue, the register, the RIB behind the gate and the property's reading *)
+Lemma bad_update_queue parent r fs1 name rc recs1 p recs2 fs2 :
+  update_file (FGood name (rc :: recs1 ++ recs2)) = true ->
+  queue_run parent r (fs1 ++ FGood name (rc :: recs1 ++ RMsg p BBad :: recs2) :: fs2) =
+  queue_run parent r (fs1 ++ FGood name (rc :: recs1 ++ recs2) :: fs2).
+Proof.
+  intros Hu. rewrite !queue_run_app. destruct (queue_run parent r fs1) as [r1 us1].
+  cbn [queue_run]. rewrite (bad_update_file parent r1 name rc recs1 p recs2 Hu). reflexivity.
+Qed.
+
+Lemma i_file_bad_update rb name rc recs1 p recs2 :
+  i_file rb (FGood name (rc :: recs1 ++ RMsg p BBad :: recs2)) = i_file rb (FGood name (rc :: recs1 ++ recs2)).
+Proof.
+  cbn [i_file]. change (pit_of (rc :: recs1 ++ RMsg p BBad :: recs2)) with (pit_of (rc :: recs1 ++ recs2)).
+  rewrite !app_comm_cons, !fold_left_app. reflexivity.
+Qed.
+
+Theorem bad_update_changes_nothing fs1 name rc recs1 p recs2 fs2 :
+  update_file (FGood name (rc :: recs1 ++ recs2)) = true ->
+  import_updates (fs1 ++ FGood name (rc :: recs1 ++ RMsg p BBad :: recs2) :: fs2) =
+    import_updates (fs1 ++ FGood name (rc :: recs1 ++ recs2) :: fs2) /\
+  import (fs1 ++ FGood name (rc :: recs1 ++ RMsg p BBad :: recs2) :: fs2) =
+    import (fs1 ++ FGood name (rc :: recs1 ++ recs2) :: fs2) /\
+  i_import (fs1 ++ FGood name (rc :: recs1 ++ RMsg p BBad :: recs2) :: fs2) =
+    i_import (fs1 ++ FGood name (rc :: recs1 ++ recs2) :: fs2).
+Proof.
+  intros Hu. unfold import, import_updates, i_import.
+  rewrite (bad_update_queue unit_start.1 unit_start.2 fs1 name rc recs1 p recs2 fs2 Hu).
+  split; [reflexivity|]. split; [reflexivity|].
+  rewrite !fold_left_app. cbn [fold_left]. rewrite i_file_bad_update. reflexivity.
+Qed.
+
+(* the defect that was repaired: with the error handed on (`?`) the file ended at that record *)
+Lemma msgs_walk_old_good parent recs : forall r,
+  forallb (fun rc => negb (rec_bad rc)) recs = true ->
+  msgs_walk_old parent r recs = (msgs_walk parent r recs, SOk).
+Proof.
+  induction recs as [|rc recs IH]; intros r Hg; [reflexivity|].
+  cbn [forallb] in Hg. apply andb_true_iff in Hg as [Hrc Hg].
+  assert (E : msgs_walk_old parent r (rc :: recs) =
+              let '(r1, us) := msg_step parent r rc in
+              let '(r2, us', st) := msgs_walk_old parent r1 recs in (r2, us ++ us', st)).
+  { destruct rc as [ps|fam pfx es|q [u| |]|q old new|]; try reflexivity. discriminate Hrc. }
+  rewrite E. cbn [msgs_walk]. destruct (msg_step parent r rc) as [r1 us]. rewrite (IH r1 Hg).
+  destruct (msgs_walk parent r1 recs); reflexivity.
+Qed.
+
+Lemma msgs_walk_old_stops parent recs1 : forall r p recs2,
+  forallb (fun rc => negb (rec_bad rc)) recs1 = true ->
+  msgs_walk_old parent r (recs1 ++ RMsg p BBad :: recs2) = (msgs_walk parent r recs1, SStop).
+Proof.
+  induction recs1 as [|rc recs1 IH]; intros r p recs2 Hg; [reflexivity|].
+  cbn [forallb] in Hg. apply andb_true_iff in Hg as [Hrc Hg].
+  assert (E : msgs_walk_old parent r ((rc :: recs1) ++ RMsg p BBad :: recs2) =
+              let '(r1, us) := msg_step parent r rc in
+              let '(r2, us', st) := msgs_walk_old parent r1 (recs1 ++ RMsg p BBad :: recs2) in (r2, us ++ us', st)).
+  { destruct rc as [ps|fam pfx es|q [u| |]|q old new|]; try reflexivity. discriminate Hrc. }
+  rewrite E. cbn [msgs_walk]. destruct (msg_step parent r rc) as [r1 us]. rewrite (IH r1 p recs2 Hg).
+  destruct (msgs_walk parent r1 recs1); reflexivity.
+Qed.
+
+(* an update file whose first UPDATE cannot be taken apart: the announcement behind it was lost *)
+Definition bad_then_good : list mrec := [RMsg pA BBad; RMsg pA (BUpdate (URoutes 0 [6] 7 0 []))].
+Lemma old_walk_witness :
+  (msgs_walk_old unit_start.1 unit_start.2 bad_then_good).1.2 = [] /\
+  (msgs_walk unit_start.1 unit_start.2 bad_then_good).2 = [UBulk [MkPay (0, 6, 2) true 7]] /\
+  i_import [FGood 0 bad_then_good] !! (0, 6, pA) = Some (true, 7) /\
+  rib_entries (import [FGood 0 bad_then_good]) 0 6 = [(2, true, 7)].
+Proof. vm_compute. repeat split; reflexivity. Qed.
+
+Lemma old_walk_lost_rest :
+  (forall parent recs1 r p recs2, forallb (fun rc => negb (rec_bad rc)) recs1 = true ->
+     msgs_walk_old parent r (recs1 ++ RMsg p BBad :: recs2) = (msgs_walk parent r recs1, SStop)) /\
+  (msgs_walk_old unit_start.1 unit_start.2 bad_then_good).1.2 = [] /\
+  (msgs_walk unit_start.1 unit_start.2 bad_then_good).2 = [UBulk [MkPay (0, 6, 2) true 7]] /\
+  i_import [FGood 0 bad_then_good] !! (0, 6, pA) = Some (true, 7).
+Proof.
+  split; [intros parent recs1 r p recs2; apply msgs_walk_old_stops|].
+  destruct old_walk_witness as (H1 & H2 & H3 & _). auto.
+Qed.
